@@ -147,6 +147,7 @@ func errorHandled(f *ssa.Function, errVal ssa.Value) (bool, string) {
 func c03(c *Ctx) {
 	defer c03writesDecidedFromIndex(c)
 	defer c03pairedListsAgree(c)
+	defer c03remoteAndLocalAddAgree(c)
 	P, R := c.P, c.R
 	R.Explain("R03.1", "T-SQL (engine of C08) restricted to the statements reachable from the message commands (Mailbox.Append/Copy/Move/Store/Expunge/Fetch, State.Create/Delete/Rename): valid against the schema and placeholder count = bound arguments for every batch size (both sides of the chunk limit).")
 	R.Explain("R03.2", "transaction shape: on any path of Mailbox.Copy/Move/Store/Expunge and State.Create/Delete/Rename at most one mutating commit wrapper (stateDBWrite/stateDBWriteResult) is executed, so a command answered NO/BAD is one rolled-back transaction.")
@@ -777,4 +778,68 @@ func c03pairedListsAgree(c *Ctx) {
 		}
 	}
 	R.Min("R03.9", "calls of state.MoveMessagesFromMailbox", n, 1)
+}
+
+// c03remoteAndLocalAddAgree (R03.10): the connector is told to add exactly the messages that are added locally.
+func c03remoteAndLocalAddAgree(c *Ctx) {
+	P, R := c.P, c.R
+	R.Explain("R03.10", "remote and local content stay in step: in a function of internal/state that both tells the connector to add messages to a mailbox (Connector.AddMessagesToMailbox through state.user.GetRemote()) and adds them to the index (state.AddMessagesToMailbox), the remote ids handed to the connector are derived (xslices.Map / db.SplitMessageIDPairSlice) from the very list that is added locally - not from a filtered copy.  Messages added locally but not labelled remotely (after the same function had the remote remove them) are taken out of the mailbox again when the connector's next update is applied.")
+	n := 0
+	for _, f := range c.funcsInPkg("internal/state") {
+		var remote, local []ssa.CallInstruction
+		for _, cs := range engine.Calls(f) {
+			cc := cs.Common()
+			if cs.Instr.Parent() != f {
+				continue
+			}
+			if cc.IsInvoke() && cc.Method.Name() == "AddMessagesToMailbox" && !engine.IsNamed(cc.Value.Type(), "db", "Transaction") {
+				remote = append(remote, cs.Instr)
+			}
+			if sc := cc.StaticCallee(); sc != nil && engine.ShortName(sc) == "AddMessagesToMailbox" && engine.RecvNamed(sc) == nil && len(cc.Args) >= 4 {
+				local = append(local, cs.Instr)
+			}
+		}
+		if len(remote) == 0 || len(local) == 0 {
+			continue
+		}
+		for _, r := range remote {
+			n++
+			var ids ssa.Value
+			for _, a := range r.Common().Args {
+				if sl, ok := a.Type().Underlying().(*types.Slice); ok && engine.IsNamed(sl.Elem(), "imap", "MessageID") {
+					ids = a
+				}
+			}
+			ok := false
+			for _, l := range local {
+				list := l.Common().Args[3]
+				if ids == nil {
+					continue
+				}
+				reaches, foreign := false, false
+				engine.Backward(ids, engine.FlowOpts{Loads: true, Calls: func(cl *ssa.Call) []ssa.Value {
+					if sc := cl.Call.StaticCallee(); sc != nil && (engine.BaseName(sc) == "Map" || engine.BaseName(sc) == "SplitMessageIDPairSlice") {
+						return cl.Call.Args[:1]
+					}
+					return nil
+				}}, func(x ssa.Value) bool {
+					if x == list {
+						reaches = true
+						return false
+					}
+					if cl, isCall := x.(*ssa.Call); isCall {
+						if sc := cl.Call.StaticCallee(); sc == nil || (engine.BaseName(sc) != "Map" && engine.BaseName(sc) != "SplitMessageIDPairSlice") {
+							foreign = true // another producer (a filter, a lookup): not a pure view of the list
+						}
+					}
+					return true
+				})
+				if reaches && !foreign {
+					ok = true
+				}
+			}
+			R.Check(ok, "R03.10", c.name(f)+"|remote add = local add", P.Pos(r.Pos()), "the remote ids derive from the list that is added locally", "the connector is told to add another list of messages than the one added to the index: remote and local mailbox content diverge and the next connector update removes what the command added")
+		}
+	}
+	R.Min("R03.10", "functions adding both remotely and locally", n, 1)
 }
